@@ -42,7 +42,7 @@ TARGETS = [
     ("wavespectra/specarray.py", lambda p: p.startswith("SpecArray.")),
     ("wavespectra/core/xrstats.py", lambda p: True),
     ("wavespectra/partition/partition.py", lambda p: p.startswith("Partition.")),
-    ("wavespectra/core/utils.py", lambda p: p in ("regrid_spec", "smooth_spec", "scaled")),
+    ("wavespectra/core/utils.py", lambda p: p in ("regrid_spec", "smooth_spec", "scaled", "celerity", "wavelen", "wavenuma", "waveage", "angle", "to_nautical", "uv_to_spddir", "spddir_to_uv")),
     ("wavespectra/specdataset.py", lambda p: p.startswith("SpecDataset.")),
 ]
 
@@ -234,6 +234,72 @@ def scan_file(rel, pred):
     return uses, ufuncs
 
 
+def scan_dask(rel, pred):
+    """per apply_ufunc call: union of the input core dims, the `.chunk({dim: value})` specifications applied in the same function
+    before (or inside the arguments of) the call, the `allow_rechunk` flag of dask_gufunc_kwargs and the `dask=` mode"""
+    src = (REPO / rel).read_text()
+    tree = ast.parse(src)
+    out = []
+
+    def chunk_specs(call):
+        specs = []
+        cand = list(call.args) + [k.value for k in call.keywords if k.arg is None]
+        for a in cand:
+            if isinstance(a, ast.Dict):
+                for k, v in zip(a.keys, a.values):
+                    r = resolve_dim_expr(k, {}) if k is not None else None
+                    if r is None or len(r) != 1:
+                        raise Untranslatable(f"{rel}: chunk key not resolvable: {ast.unparse(a)}")
+                    specs.append((r[0], ast.unparse(v)))
+            else:
+                raise Untranslatable(f"{rel}: chunk argument not a literal dict: {ast.unparse(a)}")
+        for k in call.keywords:
+            if k.arg is not None:
+                specs.append((k.arg, ast.unparse(k.value)))
+        return specs
+
+    def do_func(path, fn):
+        chunks = []  # (lineno, specs)
+        calls = []
+        for n in ast.walk(fn):
+            if isinstance(n, ast.Call) and isinstance(n.func, ast.Attribute) and n.func.attr == "chunk":
+                try:
+                    chunks.append((n.lineno, chunk_specs(n)))
+                except Untranslatable:
+                    chunks.append((n.lineno, [("?", "?")]))
+            if isinstance(n, ast.Call) and ast.unparse(n.func).endswith("apply_ufunc"):
+                calls.append(n)
+        for c in calls:
+            kw = {k.arg: k.value for k in c.keywords}
+            ins = [resolve_dim_expr(x, {}) for x in kw["input_core_dims"].elts]
+            if any(x is None for x in ins):
+                raise Untranslatable(f"{path}: core dims")
+            core = []
+            for ds in ins:
+                for d in ds:
+                    if d not in core:
+                        core.append(d)
+            end = getattr(c, "end_lineno", c.lineno)
+            specs = [sp for (ln, sps) in chunks if ln <= end for sp in sps]
+            allow = False
+            if "dask_gufunc_kwargs" in kw and isinstance(kw["dask_gufunc_kwargs"], ast.Dict):
+                for k, v in zip(kw["dask_gufunc_kwargs"].keys, kw["dask_gufunc_kwargs"].values):
+                    if isinstance(k, ast.Constant) and k.value == "allow_rechunk":
+                        allow = isinstance(v, ast.Constant) and v.value is True
+            dask = kw["dask"].value if "dask" in kw and isinstance(kw["dask"], ast.Constant) else "?"
+            out.append((path, ast.unparse(c.args[0]) if c.args else "?", core, specs, allow, str(dask)))
+
+    def walk(body, prefix):
+        for node in body:
+            if isinstance(node, ast.ClassDef):
+                walk(node.body, prefix + node.name + ".")
+            elif isinstance(node, ast.FunctionDef) and pred(prefix + node.name):
+                do_func(prefix + node.name, node)
+
+    walk(tree.body, "")
+    return out
+
+
 def spec_dims_text():
     src = (REPO / "wavespectra/specarray.py").read_text()
     tree = ast.parse(src)
@@ -277,6 +343,12 @@ def generate_dims(gen):
             f"  ⟨{lstr(p)}, {lstr(k)}, [{', '.join('[' + ', '.join(lstr(d) for d in ds) + ']' for ds in ins)}], "
             f"[{', '.join('[' + ', '.join(lstr(d) for d in ds) + ']' for ds in outs)}], {'true' if vec else 'false'}⟩"
             for (p, k, ins, outs, vec) in ufuncs) + "]\n"
+        dask = []
+        for rel, pred in TARGETS:
+            dask += scan_dask(rel, pred)
+        text += "def daskAudit : List DaskUse := [\n" + ",\n".join(
+            f"  ⟨{lstr(p)}, {lstr(k)}, [{', '.join(lstr(d) for d in core)}], [{', '.join('(' + lstr(d) + ', ' + lstr(v) + ')' for d, v in specs)}], "
+            f"{'true' if allow else 'false'}, {lstr(mode)}⟩" for (p, k, core, specs, allow, mode) in dask) + "]\n"
         text += f"def specDimsText : String := {lstr(spec_dims_text())}\n"
         text += f"def datasetWrapperText : String := {lstr(wrapper_text())}\n"
         status["dims_audit"] = "ok"
